@@ -2359,9 +2359,10 @@ class Kconfig(object):
                     continue
 
                 name, val = match.groups()
-                if name in self.syms:
-                    sym = self.syms[name]
-
+                sym = self.syms.get(name)
+                # sym.nodes: an option that was removed but is still referenced somewhere stays in 'syms' as an
+                # undefined symbol. sync_deps() only compares defined symbols, so it has to be flagged here
+                if sym is not None and sym.nodes:
                     if sym.orig_type is STRING:
                         match = _conf_string_match(val)
                         if not match:
